@@ -49,8 +49,14 @@ def configs(quick):
 def decode_real(text):
     from simfile.notes import NoteData
     nd = NoteData(text)
-    notes = list(nd)
+    notes, consistent = nc.read_notes(nd, nc.text_mode(text))
+    if not consistent:
+        raise InconsistentReads("two iterations of one NoteData object disagree (iteration history %d)" % (nc.text_mode(text) % 6))
     return nd, notes
+
+
+class InconsistentReads(Exception):
+    pass
 
 
 def s2c_job(rec):
